@@ -7,6 +7,10 @@ impl Registers {
     #[verifier::external_body]
     pub fn get_mut<T: RegisterDefault>(&self) -> (r: T) { unimplemented!() }
 }
+/// identity of a runtime (scope): which bindings a node is rendered under
+#[verifier::external_body]
+pub struct RtId { _p: u8 }
 pub trait Runtime {
+    spec fn ident(&self) -> RtId;
     fn registers(&self) -> &Registers;
 }
